@@ -43,7 +43,7 @@ def known(case, obs, failure):
 
 
 FAMILIES = [
-    progs.program_family("programs", oracles.oracle_c02, 120, 2500, deep=dict(depth=7, width=5), **dict(fault=0.6, registry_rate=0.6, p_fault_ser=0.0, depth=4)),
+    progs.program_family("programs", oracles.oracle_c02, 120, 2500, deep=dict(depth=7, width=5), **dict(fault=0.6, registry_rate=0.6, p_fault_ser=0.0, depth=4, p_finish_inside=0.06)),
 ]
 FAMILIES[0].corpus = [F6_CASE]
 FAMILIES[0].known = known
